@@ -47,6 +47,7 @@ type chartSel struct {
 	W  int // Widget w: 0 absent, 1, 2
 	S  int // Service s: 0 absent, 1, 2
 	B  int // ConfigMap b: 0 absent, 1
+	C  int // CustomResourceDefinition crds (as a template): 0 absent, 1, 2
 }
 
 func (c chartSel) spec(version int) *hx.ChartSpec {
@@ -63,6 +64,9 @@ func (c chartSel) spec(version int) *hx.ChartSpec {
 	if c.W > 0 {
 		cs.Resources = append(cs.Resources, hx.ResSpec{Kind: "Widget", Name: "w", Variant: c.W})
 	}
+	if c.C > 0 {
+		cs.Resources = append(cs.Resources, hx.ResSpec{Kind: "CRD", Name: "crds", Variant: c.C})
+	}
 	return cs
 }
 
@@ -77,13 +81,13 @@ func charts(thorough bool) []*hx.ChartSpec {
 				sels = append(sels, chartSel{A: a[0], AP: a[1], W: w})
 			}
 		}
-		sels = append(sels, chartSel{S: 1}, chartSel{S: 2}, chartSel{A: 1, W: 1, S: 1}, chartSel{A: 2, W: 2, S: 2}, chartSel{A: 1, S: 2}, chartSel{A: 1, B: 1}, chartSel{A: 2, W: 1, B: 1})
+		sels = append(sels, chartSel{C: 1}, chartSel{C: 2}, chartSel{A: 1, C: 1}, chartSel{A: 2, W: 1, C: 2}, chartSel{S: 1}, chartSel{S: 2}, chartSel{A: 1, W: 1, S: 1}, chartSel{A: 2, W: 2, S: 2}, chartSel{A: 1, S: 2}, chartSel{A: 1, B: 1}, chartSel{A: 2, W: 1, B: 1})
 	} else {
 		// every variant of every slot, with the other slots at absent and at v1
 		for _, a := range as {
 			sels = append(sels, chartSel{A: a[0], AP: a[1]}, chartSel{A: a[0], AP: a[1], W: 1})
 		}
-		sels = append(sels, chartSel{W: 2}, chartSel{A: 1, W: 2}, chartSel{S: 1}, chartSel{A: 1, W: 1, S: 1}, chartSel{A: 2, W: 2, S: 2}, chartSel{A: 1, S: 2}, chartSel{A: 1, B: 1})
+		sels = append(sels, chartSel{C: 1}, chartSel{C: 2}, chartSel{A: 1, C: 1}, chartSel{W: 2}, chartSel{A: 1, W: 2}, chartSel{S: 1}, chartSel{A: 1, W: 1, S: 1}, chartSel{A: 2, W: 2, S: 2}, chartSel{A: 1, S: 2}, chartSel{A: 1, B: 1})
 	}
 	var out []*hx.ChartSpec
 	seen := map[chartSel]bool{}
@@ -269,7 +273,7 @@ func faultyConfig(tier string) *opspace.Config {
 	p := chartSel{A: 1, S: 1}.spec(101)        // {a, s}
 	q := chartSel{A: 2, W: 1}.spec(102)        // {a', w}: drops s, adds w
 	r := chartSel{A: 2, AP: 1, S: 2}.spec(103) // {a' keep, s'}
-	q2 := chartSel{A: 1, W: 2}.spec(104) // {a, w'}: changes w, which a failed upgrade to q may already have created
+	q2 := chartSel{A: 1, W: 2}.spec(104)       // {a, w'}: changes w, which a failed upgrade to q may already have created
 	ops := []hx.Op{{Kind: "upgrade", Chart: q}, {Kind: "upgrade", Chart: p}, {Kind: "upgrade", Chart: r}, {Kind: "upgrade", Chart: q2}, {Kind: "rollback"}, {Kind: "uninstall"}, {Kind: "uninstall", KeepHistory: true}}
 	cfg := &opspace.Config{
 		Property:  prop,
